@@ -44,7 +44,7 @@ def in_context(ctx, body):
 # ------------------------------------------------------------------- C09
 
 ATTACH = ['', ' ', '  ', '\t', '\n', ' \n', '\n ', ' \t\n\t ']
-DETACH = ['\n\n', ' \n \n ', '.', ', ', '%c\n', '\\\\', '1', '~']
+DETACH = ['\n\n', ' \n \n ', '.', ', ', '%c\n', '\\\\', '1', '~', '\x0b', '\x0c', '\xa0']
 GROUP_BODIES = {
     'Bracket': ['o', '', 'a b', '{]}', '\\y{z}', '(', '{[}x'],
     'Brace': ['r', '', 'a]b', 'a[b', '[', ']', '\\y[z]', '{n}', '$m$', '[x]', ')('],
@@ -129,8 +129,12 @@ def c09_cases(tier):
                     body = body.replace(']', ')').replace('[', '(') if kind == 'Brace' and False else body
                 groups.append((kind, body, seps[i]))
             k_att = n if det_at is None else det_at
-            if ctx[2] == 'bracket-arg' and any(k == 'Bracket' and False for k, _, _ in groups):
-                continue
+            # the run is brackets THEN braces: once a brace group has been
+            # read, a bracket group that follows after blanks is not part of it
+            # (it stays in the surrounding text and needs no partner)
+            if k_att == n and nr >= 1 and ctx[2] != 'bracket-arg' and rng.random() < 0.5:
+                groups.append(('Bracket', rng.choice(['b', '0,1)', 'a b']),
+                               rng.choice([a for a in ATTACH if a])))
             body = '\\' + name + ''.join(s + ('{%s}' if k == 'Brace' else '[%s]') % b
                                          for k, b, s in groups)
             # after a detaching separator, following bracket groups are free
@@ -142,7 +146,7 @@ def c09_cases(tier):
             tail = rng.choice(['', '. tail', ' tail', '\n\ntail'])
             if n == 0 and tail[:1].isalpha():
                 tail = ' ' + tail
-            if k_att == n and tail.lstrip(' \t').startswith(('{', '[')):
+            if k_att == len(groups) and tail.lstrip(' \t').startswith(('{', '[')):
                 tail = '.' + tail
             if 'math' in ctx[2] and any('$' in b for _, b, _ in groups):
                 continue
@@ -300,7 +304,11 @@ ENCLOSING = [('', ''), ('\\begin{a}', '\\end{a}'),
 def verb_bodies(rng, n, name):
     out = ['x', '\nline\n', 'a{b', 'a}b', '$', 'x\\begin{%s}y' % name, '\\end{other}', 'x[', 'x]',
            'a % c\nb', '\\item', '$$ \\[', '\\end', '\\end{', 'x\\end {%s}' % name, '&#^_~',
-           '.{x}', '.[x]', 'x\\\\ y', '\\begin{a}', 'a\\end{a}b', '\\x{', '\\hidden{q}', ' x', '\nx']
+           '.{x}', '.[x]', 'x\\\\ y', '\\begin{a}', 'a\\end{a}b', '\\x{', '\\hidden{q}', ' x', '\nx',
+           # the end marker is `\end{name}` exactly: an \end of an environment
+           # whose name merely starts with this one does not close it
+           'x \\end{%s*} y' % name, 'x\\begin{%sx}z\\end{%sx}' % (name, name), '\\end{%s ' % name,
+           'x\\end{%s' % name + 'tab} y']
     for _ in range(n):
         b = rng.choice(['x', '.', '\nx', 'x ']) + ''.join(
             rng.choice(gen.HOSTILE_VERB + ['\\hidden{q}']) for _ in range(rng.randint(1, 7)))
